@@ -217,6 +217,10 @@ func runC16(c *core.Ctx) core.Meta {
 		}
 	}
 
+	// R16.9 a restart empties each port
+	st9 := c.Rule("R16.9", "the restart of the translator empties each of its ports: every drain loop (a loop that only takes messages off a port) serves one port and is left only where the retrieved message is nil. A loop over two ports stops when either is empty; what stays behind is translated, forwarded or returned after the flush", 1)
+	checkDrainLoops(c, st9, "R16.9", p, "accesses and replies that belong to the discarded state are processed after the restart")
+
 	// R16.8 a finished lookup is removed alone
 	st8 := c.Rule("R16.8", "cutting a finished lookup out of Comp.transactions takes out exactly that entry: every append / in-place copy of the translator that joins two windows of one slice is append(s[:i], s[i+1:]...) or copy(s[i:], s[i+1:]) followed by a cut by one. A shifted window also removes (or duplicates) the neighbouring pending lookup, whose accesses are then never forwarded (or forwarded twice)", 1)
 	checkSliceRemovalIdiom(c, st8, "R16.8", p, "a pending lookup of another page disappears from the table together with the finished one, and the accesses waiting on it are never forwarded")
